@@ -24,17 +24,17 @@ TECHNIQUE = "runtime monitoring: brute-force mapspace enumeration (real model on
 
 def gen_cases(tier, seed):
     rnd = random.Random(f"C02-{seed}")
-    n = 16 if tier == "quick" else 70
+    n = 16 if tier == "quick" else 50
     cases = []
     for i, d in enumerate(mp.gen_small_specs(rnd, n, tier, costs="tradeoff")):
         cases.append({"class": "complete/" + d["arch"]["size_class"], "desc": d, "budget": 2500 if tier == "quick" else 20000,
                       "metrics": "ENERGY|LATENCY" if i % 3 else "ENERGY|LATENCY|RESOURCE_USAGE"})
-    nu = 8 if tier == "quick" else 60
+    nu = 8 if tier == "quick" else 40
     for i in range(nu):
         wk = rnd.choice(["chain2", "chain2", "mvchain2"])
         d = gs.gen_spec(rnd, wk, levels=rnd.choice([2, 3]), costs="tradeoff", size_class=rnd.choice(["tight", "generous"]))
         cases.append({"class": "usage_front", "desc": d, "scale": 1.0, "metrics": "ENERGY|LATENCY|RESOURCE_USAGE"})
-    ns = 12 if tier == "quick" else 100
+    ns = 12 if tier == "quick" else 70
     for i in range(ns):
         d = gs.gen_spec(rnd, rnd.choice(["mm1", "chain2", "mvchain2", "fanin2"]), levels=2, costs="tradeoff",
                         size_class=rnd.choice(["tight", "inf", "generous"]))
